@@ -9,7 +9,9 @@ from .stmt import (
 from .expr import Type, Expr, Lvalue, NumericLiteral, FuncCall
 from .program import Label, LineNo
 from .codegen import CodeGen
-from .exceptions import ErrorCode as EC, InternalError, CompileError
+from .exceptions import (
+    ErrorCode as EC, InternalError, CompileError, EvalError,
+)
 from .parser import parse_string
 from .evalctx import EvaluationContext, Routine
 
@@ -610,6 +612,10 @@ class Pass2(CompilePass):
                 EC.INVALID_CONSTANT,
                 'Division by zero in constant expression',
                 node=node.value)
+        except EvalError:
+            raise CompileError(
+                EC.TYPE_MISMATCH,
+                node=node.value)
 
         if node.parent_routine == self.compilation.main_routine:
             if node.name in self.compilation.global_consts:
@@ -857,8 +863,16 @@ class Pass2(CompilePass):
                 for dim_range in decl.array_dims:
                     if not dim_range.is_const:
                         continue
-                    lbound = dim_range.static_lbound
-                    ubound = dim_range.static_ubound
+                    try:
+                        lbound = dim_range.static_lbound
+                        ubound = dim_range.static_ubound
+                    except (OverflowError, ZeroDivisionError, EvalError):
+                        raise CompileError(
+                            EC.INVALID_DIMENSIONS,
+                            'Array bound cannot be evaluated (overflow '
+                            'or division by zero)',
+                            node=dim_range,
+                        )
                     if lbound > ubound:
                         raise CompileError(
                             EC.INVALID_DIMENSIONS,
